@@ -1,1 +1,11 @@
 -- modules of work area Alerts (add imports here)
+import AM.Base.AlertsMap
+import AM.Model.Alert
+import AM.Model.Inhibit
+import AM.Lemmas.Inhibit
+import AM.Lemmas.InhibitLegacy
+import AM.Props.C03
+import AM.Model.Ingest
+import AM.Props.C13
+import AM.Model.Workers
+import AM.Props.C14
